@@ -4,6 +4,7 @@ import (
 	"bytes"
 	"encoding/json"
 	"fmt"
+	"math"
 	"os"
 	"path/filepath"
 	"sort"
@@ -370,11 +371,15 @@ func c07NewBackend(path string, maxSize int64) (pushers.Channel, error) {
 }
 
 func c07Backend(c *core.Ctx, base string) {
-	pads := []int{0, 1, 100, 900, 1000, 1100, 2100}
+	pads := []int{0, 1, 100, 900, 1000, 1100, 2100, -1} // -1: an event that encoding/json cannot marshal (NaN)
 	sendAll := func(ch pushers.Channel, seq []int, stuck *bool) {
 		done := make(chan struct{})
 		go func() {
 			for i, p := range seq {
+				if p < 0 {
+					ch.Send(event.New(event.Category("c07"), event.Custom("seq", i), event.Custom("nan", math.NaN())))
+					continue
+				}
 				ch.Send(event.New(event.Category("c07"), event.Custom("seq", i), event.Custom("pad", strings.Repeat("p", p)), event.Custom("bin", "\x00\xff\n\"")))
 			}
 			close(done)
@@ -411,6 +416,9 @@ func c07Backend(c *core.Ctx, base string) {
 			}
 		}
 		for i := range seq {
+			if seq[i] < 0 {
+				continue // cannot be written as JSON; the events around it must not suffer
+			}
 			if seen[i] != 1 {
 				c.Violationf("C07:backend:event-count", "%s: event #%d appears %d times in %v (files %v)", name, i, seen[i], filepath.Base(path)+"*", sizes)
 				break
